@@ -396,13 +396,15 @@ def inColumnGroup (c : Cfg) (s : State) (t : Token) : Res :=
 
 /-- §13.2.6.4.13 "in table body" -/
 def inTableBody (c : Cfg) (s : State) (t : Token) : Res :=
+  let sectionInScope : Bool :=
+    if c.dev.tableBodyScopeH5 then s.inTableScopeIn [.table, .tbody, .tfoot] else s.inTableScopeIn [.tbody, .thead, .tfoot]
   match t with
   | .start n _ a =>
     if n == .tr then .ok { (s.clearToTableBodyContext).insertHtml n a with mode := .inRow }
     else if n.isIn [.th, .td] then
       .again { (s.clearToTableBodyContext).insertHtml .tr with mode := .inRow }
     else if n.isIn [.caption, .col, .colgroup, .tbody, .tfoot, .thead] then
-      if !s.inTableScopeIn [.tbody, .thead, .tfoot] then .ignore s
+      if !sectionInScope then .ignore s
       else .again { (s.clearToTableBodyContext).pop with mode := .inTable }
     else inTable c s t
   | .end n =>
@@ -410,7 +412,7 @@ def inTableBody (c : Cfg) (s : State) (t : Token) : Res :=
       if !s.inTableScope n then .ignore s
       else .ok { (s.clearToTableBodyContext).pop with mode := .inTable }
     else if n == .table then
-      if !s.inTableScopeIn [.tbody, .thead, .tfoot] then .ignore s
+      if !sectionInScope then .ignore s
       else .again { (s.clearToTableBodyContext).pop with mode := .inTable }
     else if n.isIn [.body, .caption, .col, .colgroup, .html, .td, .th, .tr] then .ignore s
     else inTable c s t
